@@ -115,7 +115,7 @@ class Case final : public sim::CaseBase {
       Script sc;
       sc.ret = static_cast<int>(g.Draw(kRetKindCount));
       sc.ret_id = 5000U + static_cast<std::uint32_t>(k);
-      const int n = static_cast<int>(g.Draw(6));
+      const int n = static_cast<int>(g.Draw(sim::Thorough() ? 10 : 6));
       for (int i = 0; i < n; ++i) {
         Op op;
         op.kind = static_cast<int>(g.Draw(kOpKindCount));
